@@ -31,21 +31,21 @@ Qed.
 Theorem c40_sdk_param_slots_eq_program : slot_mismatch = [].
 Proof. exact sdk_slots_agree. Qed.
 
-(* checked_cancel_amounts: the SDK (trait default) agrees with the program's override on pure pools and
-   whenever min(long, short) <= i128::MAX … *)
-Theorem c40_cancel_agree_below_i128_max : forall byte l s,
-  pure byte = true \/ Z.min l s <= 2 ^ 127 - 1 -> cancel_sdk byte l s = cancel_prog byte l s.
+(* checked_cancel_amounts: the SDK's override and the program's override agree on ALL pools *)
+Theorem c40_cancel_agree : forall byte l s, cancel_sdk byte l s = cancel_prog byte l s.
 Proof. exact cancel_agree. Qed.
 
-(* … and FAILS above it where the program succeeds (finding class 1, SdkCancelAmountsAboveI128Max);
-   statically: the SDK Pool type lacks exactly this override *)
-Theorem c40_sdk_lacks_cancel_override : sdk_missing_overrides = ["checked_cancel_amounts"].
-Proof. exact sdk_lacks_cancel_override. Qed.
+(* statically: the SDK Pool type overrides every Pool method the program overrides (checked_cancel_amounts was
+   missing until fix c40-sdk-pool-cancel-override), with identical bodies (body_mismatch = [] above covers
+   checked_cancel_amounts and the helper cancel_amounts) *)
+Theorem c40_sdk_has_all_overrides : sdk_missing_overrides = [] /\ is_some (lookup "checked_cancel_amounts" s_pool_impl) = true.
+Proof. exact sdk_has_all_overrides. Qed.
 
-Lemma c40_sdk_cancel_refuted :
+(* for the record: the trait default both types replace fails above i128::MAX *)
+Lemma c40_default_cancel_refuted :
   exists l s, 0 <= l < 2 ^ 128 /\ 0 <= s < 2 ^ 128
-    /\ cancel_prog 0 l s = RPool 0 (2 ^ 127 - 1) 0 /\ cancel_sdk 0 l s = RErr.
-Proof. exact cancel_refuted. Qed.
+    /\ cancel_prog 0 l s = RPool 0 (2 ^ 127 - 1) 0 /\ cancel_sdk 0 l s = RPool 0 (2 ^ 127 - 1) 0 /\ cancel_default 0 l s = RErr.
+Proof. exact default_cancel_refuted. Qed.
 
 (* the program's cancel leaves (long - m, short - m) with m = min(long, short) *)
 Theorem c40_cancel_prog_spec : forall byte l s, 0 <= l -> 0 <= s -> pure byte = false ->
